@@ -59,7 +59,7 @@ class PoolWorld(World):
     ASSUMPTIONS = ["pre-emption granularity is the source line inside Pool/Worker methods",
                    "a worker that was handed the retire signal is not counted as live",
                    "a job accepted at the very instant close() is called may be dropped (never started); it must never start after close() returned"]
-    QUICK_RUNS = 6000
+    QUICK_RUNS = 10000
     CHUNK = 250
     SHRINK_LISTS = ["jobs"]
 
